@@ -141,7 +141,22 @@ def show_all(ts: T.Iterable[Term]) -> str:
 def _display_elements(it: ast.AST) -> T.Optional[T.List[T.Optional[ast.AST]]]:
     """Elements of `[a, b] + f(...)`-like iterables: the spelled-out ones, None for the rest; None if nothing is spelled out."""
     if isinstance(it, (ast.List, ast.Tuple)):
-        return [None if isinstance(e, ast.Starred) else e for e in it.elts]
+        out0: T.List[T.Optional[ast.AST]] = []
+        for e in it.elts:
+            if isinstance(e, ast.Starred):
+                inner = _display_elements(e.value)
+                out0 += inner if inner is not None else [None]
+            else:
+                out0.append(e)
+        return out0
+    if isinstance(it, ast.Call) and (attr_chain(it.func) or '').split('.')[-1] in ('chain', 'list', 'tuple', 'sorted', 'iter', 'reversed') and it.args:
+        parts = [_display_elements(a) for a in it.args if not isinstance(a, ast.Starred)]
+        if all(p is None for p in parts):
+            return None
+        out: T.List[T.Optional[ast.AST]] = []
+        for p in parts:
+            out += p if p is not None else [None]
+        return out
     if isinstance(it, ast.BinOp) and isinstance(it.op, ast.Add):
         l, r = _display_elements(it.left), _display_elements(it.right)
         if l is None and r is None:
@@ -295,6 +310,7 @@ class PathSym:
                         bind(a, None)
             elif isinstance(t, ast.Starred):
                 bind(t.value, None)
+        loops: T.List[T.Union[ast.For, ast.AsyncFor]] = []
         for n in walk_no_nested(fn):
             if isinstance(n, ast.Assign):
                 for t in n.targets:
@@ -305,12 +321,7 @@ class PathSym:
                 if isinstance(n.target, ast.Name):
                     bind(n.target, ast.BinOp(left=ast.Name(id=n.target.id, ctx=ast.Load()), op=n.op, right=n.value))
             elif isinstance(n, (ast.For, ast.AsyncFor)):
-                elems = _display_elements(n.iter)
-                if isinstance(n.target, ast.Name) and elems is not None:
-                    for el in elems:
-                        bind(n.target, el)        # el is None for an element the display does not spell out
-                else:
-                    bind(n.target, None)
+                loops.append(n)
             elif isinstance(n, ast.comprehension):
                 bind(n.target, None)
             elif isinstance(n, (ast.With, ast.AsyncWith)):
@@ -321,6 +332,16 @@ class PathSym:
                 bind(n.target, n.value)
             elif isinstance(n, ast.ExceptHandler) and n.name:
                 d.setdefault(n.name, []).append(None)
+        for lp in loops:
+            it: ast.AST = lp.iter
+            if isinstance(it, ast.Name) and len(d.get(it.id, [])) == 1 and d[it.id][0] is not None:
+                it = d[it.id][0]          # the iterable named first
+            elems = _display_elements(it)
+            if isinstance(lp.target, ast.Name) and elems is not None:
+                for el in elems:
+                    bind(lp.target, el)        # el is None for an element the display does not spell out
+            else:
+                bind(lp.target, None)
         self._defs[id(fn)] = d
         return d
 
